@@ -300,6 +300,8 @@ class Emitted:
         self.gen_start = None
         self.gen_end = None
         self.n_loops = 0
+        self.loop_sig = []      # loop headers of the SOURCE function (whitespace-normalised), for the annotation-fit test
+        self.callees = []       # names called in the SOURCE function, for the same test
         self.rules = []
         self.clauses = []       # list of (kind, text)
 
@@ -358,6 +360,11 @@ def emit_fn(spec, mode, probe=False):
     if it.kind != 'fn':
         raise GenError('%s has no body' % spec.name)
     body = it.body
+    try:
+        em.loop_sig = [' '.join(body[a:b].split()) for (a, b) in loop_headers(body)]
+    except GenError:
+        em.loop_sig = ['?']
+    em.callees = sorted(set(re.findall(r'([A-Za-z_]\w*(?:::[A-Za-z_]\w*)*!?)\s*\(', mask(body))) - set(['if', 'while', 'for', 'match', 'return', 'in', 'loop', 'let', 'mut']))
     mut_self = False
     if re.search(r'\(\s*mut\s+self\b', mask(sig)):
         # R13: `mut self` receiver (unsupported by Verus) -> `self` + a mutable local copy used by the body
